@@ -1208,12 +1208,12 @@ theorem mem_dedup {α : Type} [DecidableEq α] {l : List α} {a : α} : a ∈ de
 theorem routeLocksOK_iff {r : List (UnitM N)} (h : routeLocksOK r = true) :
     ∃ a b : Nat, a ≤ b ∧ (∀ (k : Nat) (v : UnitM N), r[k]? = some v → v.rd = true → k = a) ∧
       (∀ (k : Nat) (v : UnitM N), r[k]? = some v → v.wr = true → k = b) ∧
-      (∃ v : UnitM N, r[a]? = some v ∧ v.rd = true) := by
+      (∃ v : UnitM N, r[a]? = some v ∧ v.rd = true) ∧ (∃ v : UnitM N, r[b]? = some v ∧ v.wr = true) := by
   unfold routeLocksOK at h
   simp only at h
   split at h
   · next a b ha hb =>
-    refine ⟨a, b, by simpa using h, ?_, ?_, ?_⟩
+    refine ⟨a, b, by simpa using h, ?_, ?_, ?_, ?_⟩
     · intro k v hk hv
       have : k ∈ (List.range r.length).filter (fun k => (r[k]?.map (·.rd)).getD false) := by
         refine List.mem_filter.2 ⟨List.mem_range.2 ?_, by simp [hk, hv]⟩
@@ -1227,6 +1227,11 @@ theorem routeLocksOK_iff {r : List (UnitM N)} (h : routeLocksOK r = true) :
     · have : a ∈ (List.range r.length).filter (fun k => (r[k]?.map (·.rd)).getD false) := by rw [ha]; simp
       have h2 := (List.mem_filter.1 this).2
       cases hr : r[a]? with
+      | none => simp [hr] at h2
+      | some v => exact ⟨v, rfl, by simpa [hr] using h2⟩
+    · have : b ∈ (List.range r.length).filter (fun k => (r[k]?.map (·.wr)).getD false) := by rw [hb]; simp
+      have h2 := (List.mem_filter.1 this).2
+      cases hr : r[b]? with
       | none => simp [hr] at h2
       | some v => exact ⟨v, rfl, by simpa [hr] using h2⟩
   · cases h
@@ -1261,7 +1266,7 @@ theorem walk_locks {p : Proc N} (hwf : wfProc p = true) {c : N} {w : List (UnitM
     rw [mem_dedup, List.mem_flatMap]
     exact ⟨v0, mem_allUnits_of_mem_inBoundary hv0, hc0⟩
   have hok := wfProc_routes hwf c hcap v0 hv0 hc0 r hr
-  obtain ⟨a, b, hab, hrd, hwr, va, hva, hvard⟩ := routeLocksOK_iff hok
+  obtain ⟨a, b, hab, hrd, hwr, ⟨va, hva, hvard⟩, _⟩ := routeLocksOK_iff hok
   rw [← hW] at hpre
   obtain ⟨t, ht⟩ := hpre
   -- positions inside the walk
